@@ -169,49 +169,52 @@ Lemma dot_dip_sq (diff n : V3R) :
   dot diff diff - dot diff n * dot diff n.
 Proof. intros Hn. rewrite dot_sub_scale_sq, Hn. ring. Qed.
 
+(** feasibility needs less since /repo 8d1302d ([d = |p - cp|] in both arms): arm 0, or a normal for which
+    [perpendicular_to_vector] is exact *)
+Definition circle_feasible_ok (p c n : V3R) (eps : R) : Prop :=
+  eps <= circle_sqr_len p c n \/ vz n = 0 \/ feps (O:=ROps) <= Rabs (vz n).
+
+Lemma circle_band_feasible_ok (p c n : V3R) (eps : R) :
+  circle_band_ok p c n eps -> circle_feasible_ok p c n eps.
+Proof. unfold circle_band_ok, circle_feasible_ok. intros [H|[_ H]]; auto. Qed.
+
 Lemma point_to_circle_feasible (p c : V3R) (r : R) (n : V3R) (eps : R) d cp :
-  dot n n = 1 -> 0 <= r -> 0 < eps -> circle_band_ok p c n eps ->
+  dot n n = 1 -> 0 <= r -> 0 < eps -> circle_feasible_ok p c n eps ->
   point_to_circle p c r n eps = (d, cp) -> feasible (point_set p) (circle_set c r n) d p cp.
 Proof.
-  unfold point_to_circle, point_to_circle_full, circle_band_ok, circle_sqr_len.
+  unfold point_to_circle, point_to_circle_full, circle_feasible_ok, circle_sqr_len.
   intros Hn Hr He Hb H. ops_R.
   pose proof (dip_perp (vsub p c) n Hn) as Hp.
-  pose proof (dot_dip_sq (vsub p c) n Hn) as Hs.
   set (diff := vsub p c) in *. set (h := dot diff n) in *.
   set (dip := vsub diff (vscale h n)) in *. set (s := dot dip dip) in *.
-  destruct (Rleb eps s) eqn:E; rb_hyp E; apply pair_equal_spec in H; destruct H as [Hd Hc]; subst d cp.
-  - apply feasible_point. unfold circle_set.
-    replace (vsub (vadd c (vscale (r / R_sqrt.sqrt s) dip)) c) with (vscale (r / R_sqrt.sqrt s) dip) by veq.
+  destruct (Rleb eps s) eqn:E; rb_hyp E; apply pair_equal_spec in H; destruct H as [Hd Hc]; subst d cp;
+    apply feasible_point; unfold circle_set.
+  - replace (vsub (vadd c (vscale (r / R_sqrt.sqrt s) dip)) c) with (vscale (r / R_sqrt.sqrt s) dip) by veq.
     assert (Hl : 0 < R_sqrt.sqrt s) by (apply sqrt_lt_R0; lra).
     assert (Hq : R_sqrt.sqrt s * R_sqrt.sqrt s = s) by (apply sqrt_sqrt; lra).
     set (len := R_sqrt.sqrt s) in *. clearbody len.
     split.
     + rewrite dot_scale_l, Hp. ring.
     + rewrite dot_scale_l, dot_scale_r. fold s. rewrite <- Hq. field. lra.
-  - destruct Hb as [Hb|[Hz Hb]]; [lra|].
-    destruct (perp_dir_spec n Hb) as [Hpn Hpp].
+  - assert (Hz : vz n = 0 \/ feps (O:=ROps) <= Rabs (vz n)) by (destruct Hb as [Hb|Hb]; [lra|exact Hb]).
+    destruct (perp_dir_spec n Hz) as [Hpn Hpp].
     set (pd := norm_vector (perpendicular_to_vector n)) in *. clearbody pd.
-    assert (Edip : dip = vzero) by (apply dot_self_zero; exact Hz).
-    assert (Edp : dot diff pd = 0).
-    { pose proof (dot_vzero_l pd) as Q. rewrite <- Edip in Q. unfold dip in Q.
-      rewrite dot_sub_l, dot_scale_l, (dot_comm n pd), Hpn in Q. lra. }
-    assert (Esq : dot (vsub p (vadd c (vscale r pd))) (vsub p (vadd c (vscale r pd))) = r * r + h * h).
-    { rewrite vsub_vadd_vscale. fold diff. rewrite dot_sub_scale_sq, Edp, Hpp. lra. }
-    split; [reflexivity|]. split.
-    + unfold circle_set.
-      replace (vsub (vadd c (vscale r pd)) c) with (vscale r pd) by veq.
-      split.
-      * rewrite dot_scale_l, Hpn. ring.
-      * rewrite dot_scale_l, dot_scale_r, Hpp. ring.
-    + split; [apply sqrt_pos|]. unfold norm. ops_R. rewrite Esq. reflexivity.
+    replace (vsub (vadd c (vscale r pd)) c) with (vscale r pd) by veq.
+    split.
+    + rewrite dot_scale_l, Hpn. ring.
+    + rewrite dot_scale_l, dot_scale_r, Hpp. ring.
 Qed.
 
-(** optimality needs less: off the band is [eps <= sqr_len \/ sqr_len = 0] *)
-Lemma point_to_circle_optimal_strong (p c : V3R) (r : R) (n : V3R) (eps : R) d cp :
-  dot n n = 1 -> 0 <= r -> 0 < eps -> (eps <= circle_sqr_len p c n \/ circle_sqr_len p c n = 0) ->
+(** optimality: off the band is [eps <= sqr_len \/ sqr_len = 0]; since /repo 8d1302d the returned distance on
+    the axis is [|p - cp|] (no longer the closed form [sqrt (r^2 + h^2)]), so the case [sqr_len = 0] also needs
+    the returned point to be on the circle, i.e. the perpendicular condition: that is [circle_band_ok].
+    (The former [point_to_circle_optimal_strong], without the perpendicular condition, is false now:
+    [point_to_circle_axis_optimal_refuted] below.) *)
+Lemma point_to_circle_optimal (p c : V3R) (r : R) (n : V3R) (eps : R) d cp :
+  dot n n = 1 -> 0 <= r -> 0 < eps -> circle_band_ok p c n eps ->
   point_to_circle p c r n eps = (d, cp) -> closest_on (circle_set c r n) p d.
 Proof.
-  unfold point_to_circle, point_to_circle_full, circle_sqr_len.
+  unfold point_to_circle, point_to_circle_full, circle_band_ok, circle_sqr_len.
   intros Hn Hr He Hb H. ops_R.
   pose proof (dip_perp (vsub p c) n Hn) as Hp.
   pose proof (dot_dip_sq (vsub p c) n Hn) as Hs.
@@ -235,18 +238,16 @@ Proof.
     assert (E1 : r / len * s = r * len) by (rewrite <- Hq; field; lra).
     assert (E2 : r / len * (r / len) * s = r * r) by (rewrite <- Hq; field; lra).
     lra.
-  - assert (Hz : s = 0) by (destruct Hb; lra).
+  - destruct Hb as [Hb|[Hz Hb]]; [lra|].
+    destruct (perp_dir_spec n Hb) as [Hpn Hpp].
+    set (pd := norm_vector (perpendicular_to_vector n)) in *. clearbody pd.
     assert (Edip : dip = vzero) by (apply dot_self_zero; exact Hz).
+    assert (Edp : dot diff pd = 0).
+    { pose proof (dot_vzero_l pd) as Q. rewrite <- Edip in Q. unfold dip in Q.
+      rewrite dot_sub_l, dot_scale_l, (dot_comm n pd), Hpn in Q. lra. }
     rewrite Edip, dot_vzero_l in Ew.
-    unfold norm. ops_R. rewrite Epx. apply Req_le. f_equal. lra.
-Qed.
-
-Lemma point_to_circle_optimal (p c : V3R) (r : R) (n : V3R) (eps : R) d cp :
-  dot n n = 1 -> 0 <= r -> 0 < eps -> circle_band_ok p c n eps ->
-  point_to_circle p c r n eps = (d, cp) -> closest_on (circle_set c r n) p d.
-Proof.
-  intros Hn Hr He Hb. apply point_to_circle_optimal_strong; auto.
-  destruct Hb as [Hb|[Hb _]]; auto.
+    apply norm_le_of_sq. rewrite Epx, vsub_vadd_vscale. fold diff.
+    rewrite dot_sub_scale_sq, Edp, Hpp, <- Ew. lra.
 Qed.
 
 (** ** point_to_cylinder *)
@@ -341,21 +342,28 @@ Proof.
   lra.
 Qed.
 
-(** ** what goes wrong inside the epsilon band of point_to_circle (arm 1 = "on the axis")
-    (a) [0 < sqr_len < eps]: the returned distance [sqrt(r^2 + h^2)] is neither the distance to the
-        returned point nor the minimum (default [eps = 1e-6], point 1/2000 off the axis of a unit circle:
-        returned 1, true distance 1999/2000);
+(** ** what goes wrong / still works inside the epsilon band of point_to_circle (arm 1 = "on the axis")
+    Since /repo 8d1302d arm 1 returns [d = |p - cp|], [cp = c + r * norm_vector (perpendicular_to_vector n)]:
+    (a) [0 < sqr_len < eps]: the result is feasible (when the perpendicular is exact) but not the minimum:
+        [cp] is a fixed point of the circle that ignores where [p] is (default [eps = 1e-6], point 1/2000 off
+        the axis of a unit circle on the far side of [cp]: returned 2001/2000, true distance 1999/2000);
     (b) [sqr_len = 0] but [0 < |n_z| < eps_machine]: [perpendicular_to_vector] returns (0,0,1), which is
-        not orthogonal to [n], so the returned point is off the plane of the circle. *)
+        not orthogonal to [n], so the returned point is off the plane of the circle (infeasible) and the
+        returned distance can exceed the minimum. *)
 
-Lemma circle_band_witness :
-  point_to_circle (V (1 / 2000) 0 0) (V 0 0 0) 1 (V 0 0 1) (1 / 1000000) = (1, V 1 0 0).
+(** arm 1 in closed form *)
+Lemma circle_arm1 (p c : V3R) (r : R) (n : V3R) (eps : R) :
+  circle_sqr_len p c n < eps ->
+  point_to_circle p c r n eps =
+  (norm (vsub p (vadd c (vscale r (norm_vector (perpendicular_to_vector n))))),
+   vadd c (vscale r (norm_vector (perpendicular_to_vector n)))).
 Proof.
-  unfold point_to_circle, point_to_circle_full. ops_R.
-  set (dip := vsub (vsub (V (1 / 2000) 0 0) (V 0 0 0)) (vscale (dot (vsub (V (1 / 2000) 0 0) (V 0 0 0)) (V 0 0 1)) (V 0 0 1)) : V3R).
-  assert (Es : dot dip dip = 1 / 4000000) by (unfold dip; vunfold; field).
-  rewrite Es.
-  destruct (Rleb (1 / 1000000) (1 / 4000000)) eqn:E; rb_hyp E; [lra|].
+  unfold point_to_circle, point_to_circle_full, circle_sqr_len. intros H. ops_R.
+  destruct (Rleb eps _) eqn:E; rb_hyp E; [lra|reflexivity].
+Qed.
+
+Lemma perp_dir_ez : norm_vector (perpendicular_to_vector (V 0 0 1 : V3R)) = V 1 0 0.
+Proof.
   unfold perpendicular_to_vector. ops_R. cbn [vz vx].
   destruct (Rltb (Rabs 1) feps) eqn:E2; rb_hyp E2.
   { rewrite Rabs_R1 in E2. unfold feps in E2. cbn [cst ROps] in E2. unfold Q2R in E2. simpl in E2. lra. }
@@ -363,65 +371,105 @@ Proof.
   destruct (norm_vector_scale _ Hv) as [_ ->].
   assert (En : norm (V 1 0 (- 0 / 1) : V3R) = 1).
   { unfold norm. ops_R. replace (dot (V 1 0 (- 0 / 1)) (V 1 0 (- 0 / 1) : V3R)) with 1 by (vunfold; field). apply sqrt_1. }
-  rewrite En. f_equal.
-  - replace (1 * 1 + dot (vsub (V (1 / 2000) 0 0) (V 0 0 0)) (V 0 0 1) * dot (vsub (V (1 / 2000) 0 0) (V 0 0 0)) (V 0 0 1)) with 1 by (vunfold; ring).
-    apply sqrt_1.
-  - vunfold. f_equal; field.
+  rewrite En. vunfold. f_equal; field.
 Qed.
 
-Lemma point_to_circle_band_feasible_refuted :
+Lemma perp_dir_small (n : V3R) :
+  Rabs (vz n) < feps (O:=ROps) -> norm_vector (perpendicular_to_vector n) = V 0 0 1.
+Proof.
+  intros Hz. unfold perpendicular_to_vector. ops_R.
+  destruct (Rltb (Rabs (vz n)) feps) eqn:E2; rb_hyp E2; [|lra].
+  assert (Hv : 0 < dot (V 0 0 1) (V 0 0 1 : V3R)) by (vunfold; lra).
+  destruct (norm_vector_scale _ Hv) as [_ ->].
+  assert (En : norm (V 0 0 1 : V3R) = 1).
+  { unfold norm. ops_R. replace (dot (V 0 0 1) (V 0 0 1 : V3R)) with 1 by (vunfold; ring). apply sqrt_1. }
+  rewrite En. vunfold. f_equal; field.
+Qed.
+
+(** a point [t] off the axis of the unit circle in the xy-plane, inside the band of the default [eps] *)
+Lemma circle_band_witness (t : R) :
+  t * t < 1 / 1000000 ->
+  point_to_circle (V t 0 0) (V 0 0 0) 1 (V 0 0 1) (1 / 1000000) = (Rabs (t - 1), V 1 0 0).
+Proof.
+  intros Ht. rewrite circle_arm1 by (unfold circle_sqr_len; vunfold; lra).
+  rewrite perp_dir_ez.
+  replace (vadd (V 0 0 0) (vscale 1 (V 1 0 0)) : V3R) with (V 1 0 0 : V3R) by (vunfold; f_equal; ring).
+  f_equal. apply norm_abs_of_sq. vunfold. ring.
+Qed.
+
+(** inside the band the result is feasible (the perpendicular of (0,0,1) is exact) ... *)
+Lemma point_to_circle_band_feasible_example :
   exists p c r n eps d cp,
     dot n n = 1 /\ 0 <= r /\ 0 < eps /\ 0 < circle_sqr_len p c n < eps /\
-    point_to_circle p c r n eps = (d, cp) /\ ~ feasible (point_set p) (circle_set c r n) d p cp.
+    point_to_circle p c r n eps = (d, cp) /\ d = 1999 / 2000 /\ cp = V 1 0 0 /\
+    feasible (point_set p) (circle_set c r n) d p cp.
 Proof.
-  exists (V (1 / 2000) 0 0), (V 0 0 0), 1, (V 0 0 1), (1 / 1000000), 1, (V 1 0 0).
-  split; [vunfold; lra|]. split; [lra|]. split; [lra|].
+  assert (W : point_to_circle (V (1 / 2000) 0 0) (V 0 0 0) 1 (V 0 0 1) (1 / 1000000) = (1999 / 2000, V 1 0 0)).
+  { rewrite circle_band_witness by lra. f_equal.
+    replace (1 / 2000 - 1) with (- (1999 / 2000)) by lra. rewrite Rabs_Ropp. apply Rabs_pos_eq. lra. }
+  exists (V (1 / 2000) 0 0), (V 0 0 0), 1, (V 0 0 1), (1 / 1000000), (1999 / 2000), (V 1 0 0).
+  assert (Hn : dot (V 0 0 1) (V 0 0 1 : V3R) = 1) by (vunfold; lra).
+  split; [exact Hn|]. split; [lra|]. split; [lra|].
   split; [unfold circle_sqr_len; vunfold; lra|].
-  split; [apply circle_band_witness|].
-  intros (_ & _ & _ & Hd).
-  pose proof (norm_sq (vsub (V (1 / 2000) 0 0) (V 1 0 0) : V3R)) as Hs. rewrite <- Hd in Hs.
-  revert Hs. vunfold. lra.
+  split; [exact W|]. split; [reflexivity|]. split; [reflexivity|].
+  apply (point_to_circle_feasible _ _ _ _ (1 / 1000000)); auto; try lra.
+  right. right. cbn [vz]. rewrite Rabs_R1.
+  unfold feps. cbn [cst ROps]. unfold Q2R. simpl. lra.
 Qed.
 
+(** ... but not optimal: the returned point does not depend on [p] *)
 Lemma point_to_circle_band_optimal_refuted :
   exists p c r n eps d cp,
     dot n n = 1 /\ 0 <= r /\ 0 < eps /\ 0 < circle_sqr_len p c n < eps /\
     point_to_circle p c r n eps = (d, cp) /\ ~ closest_on (circle_set c r n) p d.
 Proof.
-  exists (V (1 / 2000) 0 0), (V 0 0 0), 1, (V 0 0 1), (1 / 1000000), 1, (V 1 0 0).
+  exists (V (- (1 / 2000)) 0 0), (V 0 0 0), 1, (V 0 0 1), (1 / 1000000), (2001 / 2000), (V 1 0 0).
   split; [vunfold; lra|]. split; [lra|]. split; [lra|].
   split; [unfold circle_sqr_len; vunfold; lra|].
-  split; [apply circle_band_witness|].
-  intros Hc. specialize (Hc (V 1 0 0)).
-  assert (Hin : circle_set (V 0 0 0) 1 (V 0 0 1) (V 1 0 0)) by (unfold circle_set; vunfold; lra).
+  split.
+  { rewrite circle_band_witness by lra. f_equal.
+    replace (- (1 / 2000) - 1) with (- (2001 / 2000)) by lra. rewrite Rabs_Ropp. apply Rabs_pos_eq. lra. }
+  intros Hc. specialize (Hc (V (-1) 0 0)).
+  assert (Hin : circle_set (V 0 0 0) 1 (V 0 0 1) (V (-1) 0 0)) by (unfold circle_set; vunfold; lra).
   specialize (Hc Hin).
-  pose proof (norm_sq (vsub (V (1 / 2000) 0 0) (V 1 0 0) : V3R)) as Hs.
-  pose proof (norm_nonneg (vsub (V (1 / 2000) 0 0) (V 1 0 0) : V3R)) as Hp.
-  set (k := norm (vsub (V (1 / 2000) 0 0) (V 1 0 0) : V3R)) in *. clearbody k.
-  revert Hs. vunfold. nra.
+  rewrite (norm_abs_of_sq _ (1999 / 2000)) in Hc by (vunfold; field).
+  rewrite Rabs_pos_eq in Hc; lra.
 Qed.
 
-Lemma circle_axis_witness (a dl : R) :
+(** on the axis of a circle whose unit normal has [0 < n_z < eps_machine]; [p = c + h * n] *)
+Lemma circle_axis_witness (a dl h : R) :
   a * a + dl * dl = 1 -> 0 < dl < feps (O:=ROps) ->
-  point_to_circle (V 0 0 0) (V 0 0 0) 1 (V a 0 dl) (1 / 1000000) = (1, V 0 0 1).
+  circle_sqr_len (vscale h (V a 0 dl)) (V 0 0 0) (V a 0 dl) = 0 /\
+  point_to_circle (vscale h (V a 0 dl)) (V 0 0 0) 1 (V a 0 dl) (1 / 1000000) =
+  (R_sqrt.sqrt (h * h - 2 * h * dl + 1), V 0 0 1).
 Proof.
-  intros Ha Hd. unfold point_to_circle, point_to_circle_full. ops_R.
-  set (diff := vsub (V 0 0 0) (V 0 0 0) : V3R).
-  set (dip := vsub diff (vscale (dot diff (V a 0 dl)) (V a 0 dl))).
-  assert (Es : dot dip dip = 0) by (unfold dip, diff; vunfold; ring).
-  rewrite Es.
-  destruct (Rleb (1 / 1000000) 0) eqn:E; rb_hyp E; [lra|].
-  unfold perpendicular_to_vector. ops_R. cbn [vz vx].
-  destruct (Rltb (Rabs dl) feps) eqn:E2; rb_hyp E2.
-  2:{ rewrite Rabs_pos_eq in E2; lra. }
-  assert (Hv : 0 < dot (V 0 0 1) (V 0 0 1 : V3R)) by (vunfold; lra).
-  destruct (norm_vector_scale _ Hv) as [_ ->].
-  assert (En : norm (V 0 0 1 : V3R) = 1).
-  { unfold norm. ops_R. replace (dot (V 0 0 1) (V 0 0 1 : V3R)) with 1 by (vunfold; ring). apply sqrt_1. }
-  rewrite En. f_equal.
-  - replace (1 * 1 + dot diff (V a 0 dl) * dot diff (V a 0 dl)) with 1 by (unfold diff; vunfold; ring).
-    apply sqrt_1.
-  - vunfold. f_equal; field.
+  intros Ha Hd.
+  assert (Es : circle_sqr_len (vscale h (V a 0 dl)) (V 0 0 0) (V a 0 dl) = 0).
+  { unfold circle_sqr_len. rewrite dot_dip_sq by (vunfold; lra). vunfold.
+    replace (h * a - 0) with (h * a) by ring. replace (h * dl - 0) with (h * dl) by ring.
+    replace (h * 0 - 0) with 0 by ring.
+    replace (h * a * a + 0 * 0 + h * dl * dl) with (h * (a * a + dl * dl)) by ring.
+    replace (h * a * (h * a) + 0 * 0 + h * dl * (h * dl)) with (h * h * (a * a + dl * dl)) by ring.
+    rewrite Ha. ring. }
+  split; [exact Es|].
+  rewrite circle_arm1 by (rewrite Es; lra).
+  rewrite perp_dir_small by (cbn [vz]; rewrite Rabs_pos_eq; lra).
+  replace (vadd (V 0 0 0) (vscale 1 (V 0 0 1)) : V3R) with (V 0 0 1 : V3R) by (vunfold; f_equal; ring).
+  f_equal. unfold norm. ops_R. f_equal. vunfold.
+  replace (h * h - 2 * h * dl + 1) with (h * h * (a * a + dl * dl) - 2 * h * dl + 1) by (rewrite Ha; ring).
+  ring.
+Qed.
+
+Lemma circle_axis_normal :
+  exists a dl : R, a * a + dl * dl = 1 /\ 0 < dl < feps (O:=ROps).
+Proof.
+  pose proof feps_pos as Hf.
+  set (dl := feps (O:=ROps) / 2).
+  assert (Hq : 0 <= 1 - dl * dl).
+  { assert (feps (O:=ROps) < 1) by (unfold feps; cbn [cst ROps]; unfold Q2R; simpl; lra).
+    unfold dl. nra. }
+  exists (R_sqrt.sqrt (1 - dl * dl)), dl.
+  split; [rewrite sqrt_sqrt by exact Hq; ring|unfold dl; lra].
 Qed.
 
 Lemma point_to_circle_axis_feasible_refuted :
@@ -429,20 +477,36 @@ Lemma point_to_circle_axis_feasible_refuted :
     dot n n = 1 /\ 0 <= r /\ 0 < eps /\ circle_sqr_len p c n = 0 /\
     point_to_circle p c r n eps = (d, cp) /\ ~ feasible (point_set p) (circle_set c r n) d p cp.
 Proof.
-  pose proof feps_pos as Hf.
-  set (dl := feps (O:=ROps) / 2).
-  assert (Hq : 0 <= 1 - dl * dl).
-  { assert (feps (O:=ROps) < 1) by (unfold feps; cbn [cst ROps]; unfold Q2R; simpl; lra).
-    unfold dl. nra. }
-  set (a := R_sqrt.sqrt (1 - dl * dl)).
-  assert (Ha : a * a + dl * dl = 1) by (unfold a; rewrite sqrt_sqrt by exact Hq; ring).
-  assert (Hd : 0 < dl < feps (O:=ROps)) by (unfold dl; lra).
-  clearbody a dl.
-  exists (V 0 0 0), (V 0 0 0), 1, (V a 0 dl), (1 / 1000000), 1, (V 0 0 1).
+  destruct circle_axis_normal as (a & dl & Ha & Hd).
+  destruct (circle_axis_witness a dl 0 Ha Hd) as [Es W].
+  exists (vscale 0 (V a 0 dl)), (V 0 0 0), 1, (V a 0 dl), (1 / 1000000). eexists. eexists.
   split; [vunfold; lra|]. split; [lra|]. split; [lra|].
-  split; [unfold circle_sqr_len; vunfold; ring|].
-  split; [apply circle_axis_witness; auto|].
+  split; [exact Es|].
+  split; [exact W|].
   intros (_ & (Hc & _) & _). revert Hc. vunfold. lra.
+Qed.
+
+(** without the perpendicular condition optimality fails on the axis as well ([p = c - n]: returned
+    [sqrt (2 + 2 n_z)], every point of the circle is at distance [sqrt 2]) *)
+Lemma point_to_circle_axis_optimal_refuted :
+  exists p c r n eps d cp,
+    dot n n = 1 /\ 0 <= r /\ 0 < eps /\ circle_sqr_len p c n = 0 /\
+    point_to_circle p c r n eps = (d, cp) /\ ~ closest_on (circle_set c r n) p d.
+Proof.
+  destruct circle_axis_normal as (a & dl & Ha & Hd).
+  destruct (circle_axis_witness a dl (-1) Ha Hd) as [Es W].
+  exists (vscale (-1) (V a 0 dl)), (V 0 0 0), 1, (V a 0 dl), (1 / 1000000). eexists. eexists.
+  split; [vunfold; lra|]. split; [lra|]. split; [lra|].
+  split; [exact Es|].
+  split; [exact W|].
+  intros Hc. specialize (Hc (V 0 1 0)).
+  assert (Hin : circle_set (V 0 0 0) 1 (V a 0 dl) (V 0 1 0)) by (unfold circle_set; vunfold; lra).
+  specialize (Hc Hin).
+  assert (Hx : dot (vsub (vscale (-1) (V a 0 dl)) (V 0 1 0)) (vsub (vscale (-1) (V a 0 dl)) (V 0 1 0) : V3R) = 2).
+  { vunfold. replace 2 with (a * a + dl * dl + 1) by lra. ring. }
+  unfold norm in Hc. ops_R. rewrite Hx in Hc.
+  apply sqrt_le_0 in Hc; [lra| |lra].
+  nra.
 Qed.
 
 (** ** the hypotheses are satisfiable on non-trivial inputs *)
@@ -463,6 +527,18 @@ Proof.
     by (left; unfold circle_sqr_len; vunfold; lra).
   destruct (point_to_circle (V 2 0 1) (V 0 0 0) 1 (V 0 0 1) (1 / 1000000)) as [d cp] eqn:E.
   exists d, cp. split; [vunfold; lra|]. split; [lra|]. split; [lra|]. split; [exact Hb|reflexivity].
+Qed.
+
+(** the hypothesis of [point_to_circle_feasible], on an input inside the band (arm 1) *)
+Example point_to_circle_feasible_nonvacuous :
+  exists p c r n eps d cp,
+    dot n n = 1 /\ 0 <= r /\ 0 < eps /\ circle_feasible_ok p c n eps /\ point_to_circle p c r n eps = (d, cp).
+Proof.
+  exists (V (1 / 2000) 0 0), (V 0 0 0), 1, (V 0 0 1), (1 / 1000000), (Rabs (1 / 2000 - 1)), (V 1 0 0).
+  split; [vunfold; lra|]. split; [lra|]. split; [lra|].
+  split; [|apply circle_band_witness; lra].
+  right. right. cbn [vz]. rewrite Rabs_R1.
+  unfold feps. cbn [cst ROps]. unfold Q2R. simpl. lra.
 Qed.
 
 Example point_to_cylinder_nonvacuous :
